@@ -63,6 +63,24 @@ func jobsFor(prop, tier string) []*Job {
 		}
 		add(&Job{Name: fmt.Sprintf("O2-serve/depth=%d,top=%d", depth, top), Pkg: "connlimit", Harness: "VerifC04Serve", Params: p("depth", depth, "top", top),
 			Bounds: fmt.Sprintf("%d sequential request trees, overlap depth <= %d, 2 sources, max symbolic in [0,2^31), every handler returns or panics (symbolic)", top, depth)})
+	case "C17":
+		type cfg struct {
+			N, k int
+			res  int64
+		}
+		cfgs := []cfg{{2, 3, 2e9}, {3, 3, 1e9}, {3, 3, 2e9}, {4, 3, 2e9}}
+		if thorough {
+			cfgs = append(cfgs, cfg{4, 4, 2e9}, cfg{4, 4, 7e9}, cfg{3, 4, 1e9}, cfg{10, 3, 2e9}, cfg{10, 3, 1e9})
+		}
+		for _, c := range cfgs {
+			add(&Job{Name: fmt.Sprintf("O1-window/N=%d,r=%gs,k=%d", c.N, float64(c.res)/1e9, c.k), Pkg: "memmetrics", Harness: "VerifC17Window",
+				Params: p("N", c.N, "k", c.k, "t0span", 4*c.N*7), Grid: c.res, TimeoutS: 120, MergeBlind: true,
+				Merge: map[string]bool{"(*github.com/vulcand/oxy/v2/memmetrics.RollingCounter).cleanup": true, "(*github.com/vulcand/oxy/v2/memmetrics.RollingCounter).incBucketValue": true},
+				Bounds: fmt.Sprintf("fresh counter with %d buckets of %gs; %d operations chosen symbolically among Inc(v<2^20)/Count/Reset, each preceded by a symbolic advance of up to %d resolutions plus a sub-resolution remainder; start instant symbolic in a window of %d resolutions from 2001-01-01 (covers every residue of the slot number modulo N and of its Unix second modulo N)", c.N, float64(c.res)/1e9, c.k, 3*c.N+2, 28*c.N)})
+		}
+		add(&Job{Name: "O3-ratio/N=3,r=1s,k=2", Pkg: "memmetrics", Harness: "VerifC17Ratio", Params: p("N", 3, "k", 2, "t0span", 84), Grid: 1e9, TimeoutS: 120, MergeBlind: true,
+			Merge: map[string]bool{"(*github.com/vulcand/oxy/v2/memmetrics.RollingCounter).cleanup": true, "(*github.com/vulcand/oxy/v2/memmetrics.RollingCounter).incBucketValue": true},
+			Bounds: "ratio counter with 3 buckets of 1s, 2 symbolic increments to A or B with symbolic advances"})
 	}
 	return js
 }
